@@ -9,7 +9,7 @@ from ..locks import regions
 from ..model import AnchorError
 from ..flow import cannot_raise
 from ..mutate import B, M
-from .c03 import fetch_guard_rules, fetcher_unsubscribe_rules
+from .c03 import fetch_completion_rules, fetch_guard_rules, fetcher_unsubscribe_rules
 from .c04 import param_lookup_rule
 
 PROP = 'C02'
@@ -332,7 +332,8 @@ def check(ctx):
     ctx.need(n8 >= 3, 'self-join analysis found only %d candidate sites' % n8)
 
     # ---- R11: `connected` only once the tables are complete (shared guard rule, see C03.R1) ---------
-    fetch_guard_rules(ctx, 'R11')
+    fetcher_, cb_, gf_, _pkv, _adds, reqs_ = fetch_guard_rules(ctx, 'R11')
+    fetch_completion_rules(ctx, 'R11', fetcher_, cb_, gf_, reqs_)      # complete = hit / empty / last index; a miss with entries starts at 0 (shared with C03.R9)
 
     # ---- R12: the parameter thread never keeps its request lock without a request in flight ------
     pu = m.func('cflib/crazyflie/param.py', '_ParamUpdater.run')
@@ -577,11 +578,19 @@ def protected_join(func, call):
     for n in g.nodes_containing(call):
         for f in g.facts_at(n):
             if f.op == 'is' and 'current_thread()' in f.text and f.pol is False:
-                return True, 'identity guard %r' % f
+                # the object compared with the running thread has to be the one that is joined (a bound method, say, is never
+                # the current thread: the guard is then always open)
+                holder = norm(call.func.value)
+                sides = [norm(x) for x in (f.left, f.right) if x is not None and 'current_thread()' not in norm(x)]
+                if sides == [holder]:
+                    return True, 'identity guard %r' % f
+                return False, 'identity guard on %s, but %s is joined' % (sides, holder)
     return False, 'none'
 
 
 VARIANTS = [
+    M('R8', LS, "            if self._ping_thread_instance is not current_thread():", "            if self._ping_thread is not current_thread():", 'self-join guard compares the bound method'),
+    M('R11', 'cflib/crazyflie/toc.py', "                if (self.nbr_of_items > 0):", "                if (self.nbr_of_items > 1):", 'one-entry table treated as empty'),
     M('R4', CF, "            self.commander.send_setpoint(0, 0, 0, 0)\n        if (self.link is not None):\n            self.link.close()", "            self.commander.send_setpoint(0, 0, 0, 0)\n            self.link.close()", 'link not re-tested after the zero setpoint'),
     M('R10', CF, "            pk = link.receive_packet(1)", "            pk = link.receive_packet(-1)", 'dispatcher blocks for ever on one link'),
     M('R2', PM, "            for n in self.toc.toc[g]:\n                if n not in self.values[g]:\n                    return False\n", "", 'a group with one value counts as complete'),
